@@ -278,7 +278,7 @@ fn from_owner(d: &mut Driver, ch: &mut dyn Chooser, id: u32) {
 
 // ------------------------------------------------------------------ start states
 
-pub const N_STARTS: usize = 13;
+pub const N_STARTS: usize = 14;
 
 /// Put the pool into one of the named start states (for bounded-exhaustive enumeration).
 pub fn start_state(d: &mut Driver, which: usize) {
@@ -375,6 +375,21 @@ pub fn start_state(d: &mut Driver, which: usize) {
             let head = bm.split_to(4);
             d.add(Val::M(head), m[..4].to_vec(), Origin::Heap);
             d.add(Val::M(bm), m[4..].to_vec(), Origin::Heap);
+        }
+        12 => {
+            d.log("start two full BytesMut from consecutive allocations, both shared".into());
+            let id2 = d.fresh_id();
+            let m2 = gen_bytes(id2, 16);
+            let m1 = m[..].to_vec();
+            // allocate both buffers first so that nothing lies between them
+            let mut a = BytesMut::with_capacity(n);
+            let mut b = BytesMut::with_capacity(16);
+            a.extend_from_slice(&m1);
+            b.extend_from_slice(&m2);
+            drop(a.split_off(n));
+            drop(b.split_off(16));
+            d.add(Val::M(a), m1, Origin::Heap);
+            d.add(Val::M(b), m2, Origin::Heap);
         }
         _ => {
             d.log("start BytesMut exact (len==cap) + empty sibling".into());
